@@ -126,9 +126,11 @@ GpM(g) ==
       [] g.kind = "linexp"   -> LET G == GM(g) IN MM(MInv(MM(MT(G), G)), MT(G))      \* projection on the modes
       [] g.kind = "ugradlin" -> F([b \in 1..g.k |-> VUnit(g.n, b)])
 
-\* polynomial map with polynomial inverse  f_1 = p_1,  f_i = p_i + p_1^2  (i > 1);  p_1 = f_1,  p_i = f_i - f_1^2
-Tri(v)    == F([i \in 1..Len(v) |-> IF i = 1 THEN v[1] ELSE RAdd(v[i], RSq(v[1]))])
-TriInv(f) == F([i \in 1..Len(f) |-> IF i = 1 THEN f[1] ELSE RSub(f[i], RSq(f[1]))])
+\* polynomial map with polynomial inverse  f_1 = p_1 + 1,  f_i = p_i + p_1^2  (i > 1);  p_1 = f_1 - 1,  p_i = f_i - (f_1 - 1)^2.
+\* The shift makes f_1 # p_1, so the Jacobian (which depends on p_1) evaluated at the FUNCTION value instead of the
+\* parameter is a different matrix: a gradient that hands the wrong representation of `wrt` to the geometry is visible.
+Tri(v)    == F([i \in 1..Len(v) |-> IF i = 1 THEN RAdd(v[1], One) ELSE RAdd(v[i], RSq(v[1]))])
+TriInv(f) == F([i \in 1..Len(f) |-> IF i = 1 THEN RSub(f[1], One) ELSE RSub(f[i], RSq(RSub(f[1], One)))])
 
 RExt(S, le(_, _)) == CHOOSE m \in S : \A o \in S : le(m, o)
 StepProj(g, f) ==
